@@ -96,7 +96,7 @@ HASHSEEDS = ["0", "1", "random"]
 
 
 def case_timeout(spec):
-    return 4 * CHILD_TIMEOUT + 60 if spec.get("engine") == "B" else CASE_TIMEOUT
+    return 4 * CHILD_TIMEOUT + 60 if spec.get("engine") in ("B", "N") else CASE_TIMEOUT
 
 
 def preload():
@@ -105,6 +105,26 @@ def preload():
     import syne_tune.optimizer.schedulers.synchronous  # noqa: F401
     import syne_tune.optimizer.baselines  # noqa: F401
     import syne_tune.backend.simulator_backend.time_keeper  # noqa: F401
+
+
+SEED_MAX = 2 ** 31 - 1  # schedulers reject a larger random_seed (constraint Integer(0, 2**31 - 1)); searchers take 2**32 - 1
+
+
+def boundary_seed(i, upper=SEED_MAX):
+    """Seed schedule of the i-th case of a family: every 5th case has random_seed 0, every 5th another boundary /
+    small value (1, upper, 2, upper - 1, 3, 7); None = drawn by the generator."""
+    if i % 5 == 0:
+        return 0
+    if i % 5 == 1:
+        return [1, upper, 2, upper - 1, 3, 7][(i // 5) % 6]
+    return None
+
+
+def _with_seed(spec, i, upper=SEED_MAX):
+    b = boundary_seed(i, upper)
+    if b is not None:
+        spec["sched_seed"] = b
+    return spec
 
 
 def _b_plan(tier):
@@ -122,19 +142,22 @@ def _b_plan(tier):
 def cases(tier, seed):
     out = []
     for i, sc in enumerate(_b_plan(tier)):
-        out.append({"engine": "B", "scenario": sc, "seed": seed * 611953 + i * 29 + 7})
+        out.append(_with_seed({"engine": "B", "scenario": sc, "seed": seed * 611953 + i * 29 + 7}, i // 2))
+    for i in range(6 if tier == "quick" else 60):
+        out.append({"engine": "N", "idx": i, "seed": seed * 32452843 + i * 31 + 3})
     ns = 12 if tier == "quick" else 200
     for i in range(ns):
         for j, target in enumerate(S_TARGETS):
             c = i * len(S_TARGETS) + j
-            out.append({"engine": "S", "target": target, "seed": seed * 1299709 + c * 23 + 5,
-                        "force_kind": DOMAIN_KINDS[c % len(DOMAIN_KINDS)]})
+            out.append(_with_seed({"engine": "S", "target": target, "seed": seed * 1299709 + c * 23 + 5,
+                                   "force_kind": DOMAIN_KINDS[c % len(DOMAIN_KINDS)]}, i,
+                                  2 ** 32 - 1 if target.startswith("searcher_") else SEED_MAX))
     n = 40 if tier == "quick" else 700
     for i in range(n):
         for j, kind in enumerate(KINDS_A):
             c = i * len(KINDS_A) + j
-            out.append({"engine": "A", "kind": kind, "seed": seed * 2750159 + c * 19 + 11,
-                        "force_kind": DOMAIN_KINDS[c % len(DOMAIN_KINDS)]})
+            out.append(_with_seed({"engine": "A", "kind": kind, "seed": seed * 2750159 + c * 19 + 11,
+                                   "force_kind": DOMAIN_KINDS[c % len(DOMAIN_KINDS)]}, i))
     return out
 
 
@@ -170,6 +193,21 @@ def floors(tier):
         f["domain_kind_in_twin_spaces:" + dk] = 15 * k
         f["domain_kind_in_child_spaces:" + dk] = 2 if tier == "quick" else 20
     f["B:cases_with_quantized_domain"] = 8 if tier == "quick" else 80
+    kn = 1 if tier == "quick" else 10
+    for lb, m in (("seed", 60), ("mode", 30), ("space", 30), ("max_t", 30), ("brackets", 15), ("rung_levels", 15)):
+        f["neighbour_differs_in:" + lb] = m * kn
+    f["N:suggestions_compared"] = 5000 * kn
+    f["N:hyperband_multi_bracket_targets_with_100_suggestions"] = 12 * kn
+    f["decided:neighbour_run_equals_solo_run_in_pristine_process"] = 40 * kn
+    f["decided:neighbour_run_in_worker_equals_solo_run_in_pristine_process"] = 40 * kn
+    f["N:targets_with_random_seed_0"] = 5 * kn
+    for kind in KINDS_A:
+        f["twins_with_random_seed_0:" + kind] = 5 * k
+        f["twins_with_boundary_random_seed:" + kind] = 5 * k
+    f["S:shared_twins_with_random_seed_0"] = 15 * k
+    f["B:fresh_process_histories_with_random_seed_0"] = 6 if tier == "quick" else 60
+    f["B:fresh_process_cases_with_random_seed_0:sim"] = 1 if tier == "quick" else 10
+    f["B:fresh_process_cases_with_random_seed_0:vt_gp"] = 1 if tier == "quick" else 10
     return f
 
 
@@ -700,6 +738,11 @@ class Perturber:
         self.decoys = []
         self.n_built = 0
         self._pair_key = 0
+        self.neighbours = None  # engine N: list of (label, params) of near-identical schedulers used instead of plain decoys
+        self.step_prob = 1.0
+        self.max_pool = 3
+        self.cprefix = "A:"
+        self.built_labels = {}
 
     def _count(self, name, n=1):
         if self.o is not None:
@@ -740,10 +783,22 @@ class Perturber:
             else:
                 for _ in range(rng.randint(1, 5)):
                     random.random()
-        self._count("A:gaps_perturbed")
+        self._count(self.cprefix + "gaps_perturbed")
+
+    def prephase(self):
+        """Engine N: every neighbour is created and used (at least one suggestion) BEFORE the scheduler under test exists."""
+        for nb in self.neighbours:
+            vt = self.build_decoy(nb)
+            if vt is None:
+                continue
+            for _ in range(self.rng.randint(4, 25)):
+                if not (vt.n_events < vt.p["max_events"] and vt.step()):
+                    break
 
     def decoy_action(self):
         rng = self.rng
+        if self.step_prob < 1.0 and rng.random() > self.step_prob:
+            return
         if len(self.decoys) < 2 or rng.random() < 0.08:
             self.build_decoy()
         if self.decoys:
@@ -752,30 +807,40 @@ class Perturber:
             alive = True
             for _ in range(rng.randint(1, 3)):
                 alive = vt.n_events < vt.p["max_events"] and vt.step()
-                self._count("A:decoy_steps")
+                self._count(self.cprefix + "decoy_steps")
                 if not alive:
                     break
             if not alive:
                 self.decoys.pop(i)
 
-    def build_decoy(self):
+    def build_decoy(self, nb=None):
         rng, p = self.rng, self.p
         self.n_built += 1
-        seed = p["sched_seed"] if rng.random() < 0.2 else rng.randrange(2 ** 31 - 1)
+        label = None
+        if nb is None and self.neighbours:
+            nb = rng.choice(self.neighbours)
+        if nb is not None:
+            label, p = nb
+            seed = p["sched_seed"]
+        else:
+            seed = p["sched_seed"] if rng.random() < 0.2 else rng.randrange(2 ** 31 - 1)
         tk = new_time_keeper() if _needs_time_keeper(p) else None
         try:
             s = build_scheduler(p, seed, tk)
         except Exception:  # noqa: BLE001  (constructor raises are judged on the twins, not on decoys)
-            return
+            return None
         shift = 1000 + self.n_built
         curves, extra_fn = make_value_fns(p, shift)
         vp = vt_params(p, shift)
         vp["policy"] = rng.choice(["uniform", "eager", "burst"])
         vt = CVTuner(Port(s), vp, curves, extra_fn=extra_fn)
-        if len(self.decoys) >= 3:
+        if len(self.decoys) >= self.max_pool:
             self.decoys.pop(0)
         self.decoys.append(vt)
-        self._count("A:decoys_constructed")
+        self._count(self.cprefix + "decoys_constructed")
+        if label is not None:
+            self.built_labels[label] = self.built_labels.get(label, 0) + 1
+        return vt
 
 
 class Diverged(Exception):
@@ -795,11 +860,12 @@ class TwinPort:
         self.divergence = None
         self.ncalls = 0
         self.trace = []
+        self.tk_rng = random.Random(pert.p.get("vt_seed", 0) + 77)  # same elapsed times with and without perturbation
 
     def _call(self, api, **kw):
         self.pert.new_pair()
         if self.time_keepers:
-            dt = self.pert.rng.choice([0.0, 0.0, 0.5, 3.25])
+            dt = self.tk_rng.choice([0.0, 0.0, 0.5, 3.25])
             for tk in self.time_keepers:
                 tk.advance(dt)
         outs = []
@@ -963,6 +1029,10 @@ def run_engine_a(spec, o):
     n = vt.n_events
     if div is None and n >= 30:
         o.count("A:hist30:" + kind)
+        if p["sched_seed"] == 0:
+            o.count("twins_with_random_seed_0:" + kind)
+        elif p["sched_seed"] in (1, 2, 3, 7, SEED_MAX, SEED_MAX - 1):
+            o.count("twins_with_boundary_random_seed:" + kind)
         if kind not in ("dehb", "fifo_grid"):  # these two never call Domain.sample (encoded vectors / grid points)
             for dk in space_kinds(p["space"]):
                 o.count("domain_kind_in_twin_spaces:" + dk)
@@ -1167,8 +1237,8 @@ def child_vt_gp(p, noise, trace, meta):
 
 def modelfree_spec(p, j):
     """Engine-A spec of the j-th history of a vt_modelfree batch (every domain kind is forced in turn)."""
-    return {"kind": KINDS_A[(p["base"] + j) % len(KINDS_A)], "seed": p["base"] + 101 * j,
-            "force_kind": DOMAIN_KINDS[(p["base"] + j) % len(DOMAIN_KINDS)]}
+    return _with_seed({"kind": KINDS_A[(p["base"] + j) % len(KINDS_A)], "seed": p["base"] + 101 * j,
+                       "force_kind": DOMAIN_KINDS[(p["base"] + j) % len(DOMAIN_KINDS)]}, j)
 
 
 def child_vt_modelfree(p, noise, trace, meta):
@@ -1376,6 +1446,202 @@ def child_sim(p, noise, trace, meta):
     meta["trials"] = len({r["trial_id"] for r in rows})
 
 
+# =============================================================================================
+# engine N: near-identical neighbours created and used in the same process; reference = solo run in a pristine process
+
+N_KINDS = ["hb_stopping", "hb_promotion", "hb_promotion", "hb_stopping", "hb_rush_stopping", "hb_cost_promotion",
+           "sync_hb", "dehb", "pbt", "rea", "fifo_random", "hb_pasha"]
+N_TARGETS_PER_CASE = 8
+
+
+def expand_n_target(spec, j):
+    """Parameters of the j-th scheduler under test of an engine-N case: Hyperband targets get several brackets, the
+    default (geometric) rung levels most of the time and long histories (>= 100 suggestions), so that a change of a
+    few percent in a sampling distribution shows."""
+    c = spec.get("idx", 0) * N_TARGETS_PER_CASE + j
+    kind = N_KINDS[c % len(N_KINDS)]
+    seed = spec["seed"] * 97 + j * 13
+    rng = random.Random(seed * 7 + 1)
+    p = expand_a(_with_seed({"kind": kind, "seed": seed, "force_kind": DOMAIN_KINDS[c % len(DOMAIN_KINDS)]}, c))
+    if kind.startswith("hb_"):
+        if rng.random() < 0.7:
+            p.pop("rung_levels", None)
+            p.pop("rung_increment", None)
+            p["grace_period"] = rng.choice([1, 1, 2])
+            p["reduction_factor"] = rng.choice([2, 3, 3, 4])
+            p["max_t"] = rng.choice([9, 16, 27, 27, 32, 81])
+        if kind != "hb_pasha":
+            p["brackets"] = rng.choice([2, 3, 4])
+        p["curves"] = rng.choice(["continuous", "crossing"])
+        p["max_events"] = rng.randint(1200, 2000)
+        p["max_trials"] = 10 ** 6
+        p["n_workers"] = rng.randint(2, 6)
+        p["policy"] = rng.choice(["eager", "uniform", "eager"])
+        p["fail_rate"] = rng.choice([0.0, 0.0, 0.1])
+    else:
+        p["max_events"] = rng.randint(150, 300)
+        p["max_trials"] = max(p.get("max_trials", 0), 60)
+    p.update({k: v for k, v in (spec.get("target_overrides") or {}).items()})
+    return p
+
+
+def neighbour_params(p, rng):
+    """[(label, params)]: schedulers that share all arguments of ``p`` but one (label = the argument that differs)."""
+    kind = p["kind"]
+    out = []
+
+    def var(label, **ch):
+        q = copy.deepcopy(p)
+        q.update(ch)
+        out.append((label, q))
+
+    var("seed", sched_seed=rng.randrange(SEED_MAX))
+    var("seed", sched_seed=0 if p["sched_seed"] != 0 else 1)
+    var("mode", mode="max" if p["mode"] == "min" else "min")
+    var("space", space=full_space(rng, ensure_infinite=True))
+    if kind.startswith("hb_"):
+        mt = p["max_t"]
+        if p.get("rung_levels") is not None:
+            lv = list(p["rung_levels"])
+            var("max_t", max_t=mt + 7)
+            var("rung_levels", rung_levels=lv + [mt], max_t=mt + 7)
+            if len(lv) > 1:
+                var("rung_levels", rung_levels=lv[:-1])
+        elif p.get("rung_increment") is not None:
+            var("max_t", max_t=mt + 2 * p["rung_increment"])
+            var("rung_levels", rung_increment=p["rung_increment"] + 1)
+        else:
+            rf = p["reduction_factor"]
+            var("max_t", max_t=int(round(mt * rf)))  # one more rung level, the others coincide
+            if mt // rf > p["grace_period"]:
+                var("max_t", max_t=int(mt // rf))
+            var("rung_levels", reduction_factor={2: 3, 3: 2, 4: 3, 2.5: 3}.get(rf, 2))
+            var("rung_levels", grace_period=p["grace_period"] + 1)
+        if kind != "hb_pasha":
+            var("brackets", brackets=p["brackets"] + 1)
+            if p["brackets"] > 1:
+                var("brackets", brackets=p["brackets"] - 1)
+            var("rung_system_per_bracket", rung_system_per_bracket=not p["rung_system_per_bracket"])
+    elif kind == "pbt":
+        var("max_t", max_t=p["max_t"] + 3)
+        var("population_size", population_size=p["population_size"] + 1)
+        var("perturbation_interval", perturbation_interval=p["perturbation_interval"] + 1)
+    elif kind in ("rea", "morea"):
+        var("max_t", max_t=p["max_t"] + 1)
+        var("population_size", population_size=p["population_size"] + 2)
+    elif kind == "fifo_random":
+        var("max_t", max_t=p["max_t"] + 1)
+        var("searcher_options", variant="plain" if p["variant"] != "plain" else "allow_duplicates")
+    return out
+
+
+def run_target(p, neighbours, o=None, prefix="N:"):
+    """One history of the scheduler under test; with ``neighbours`` they are created and used first and keep being
+    created / stepped between its calls (together with the global-RNG perturbations)."""
+    pert = Perturber(p, p["vt_seed"] + 5, ("np", "py", "decoy") if neighbours else (), o=o)
+    pert.cprefix = prefix
+    if neighbours:
+        pert.neighbours, pert.step_prob, pert.max_pool = list(neighbours), 0.3, 6
+        pert.prephase()
+    tk = new_time_keeper() if _needs_time_keeper(p) else None
+    try:
+        target = build_scheduler(p, p["sched_seed"], tk)
+    except Exception as e:  # noqa: BLE001
+        return {"constructor_raised": [type(e).__name__, str(e)[:160]], "calls": [], "n_suggest": 0, "events": 0,
+                "labels": pert.built_labels}
+    port = TwinPort([target], pert, Obs(), [tk] if tk is not None else [])
+    curves, extra_fn = make_value_fns(p)
+    vt = CVTuner(port, vt_params(p), curves, extra_fn=extra_fn).run()
+    return {"calls": [dumps(t) for t in port.trace], "n_suggest": sum(1 for t in port.trace if t[0] == "suggest"),
+            "events": vt.n_events, "labels": pert.built_labels,
+            "num_brackets": getattr(target, "num_brackets", 1) if hasattr(target, "terminator") else 1}
+
+
+def first_call_diff(a, b):
+    """First difference of two call lists (json strings of [api, outcome]) -> None | dict(index, api, field, ...)"""
+    for i, (x, y) in enumerate(zip(a, b)):
+        if x != y:
+            jx, jy = json.loads(x), json.loads(y)
+            api = jx[0]
+            if jx[0] != jy[0]:
+                field = "different_api_call"
+            elif jx[1][0] != jy[1][0]:
+                field = "one_run_raised"
+            elif jx[1][0] == "raise":
+                field = "different_exceptions"
+            elif api == "suggest":
+                field = suggestion_diff_field(jx[1][1], jy[1][1])
+            else:
+                field = "decision" if api == "on_trial_result" else "return_value"
+            return {"index": i, "api": api, "field": field, "solo": x[:500], "other": y[:500]}
+    if len(a) != len(b):
+        return {"index": min(len(a), len(b)), "api": "history_length", "field": "length", "solo": len(a), "other": len(b)}
+    return None
+
+
+def _in_fork(fn):
+    """Run fn() in a forked copy of this (pristine) process and return its JSON result."""
+    import signal
+    import traceback
+
+    r, w = os.pipe()
+    pid = os.fork()
+    if pid == 0:
+        try:
+            os.close(r)
+            signal.alarm(300)
+            try:
+                data = json.dumps(fn())
+            except BaseException:  # noqa: BLE001
+                data = json.dumps({"error": traceback.format_exc()[-1500:]})
+            with os.fdopen(w, "w") as f:
+                f.write(data)
+        finally:
+            os._exit(0)
+    os.close(w)
+    with os.fdopen(r) as f:
+        data = f.read()
+    os.waitpid(pid, 0)
+    try:
+        return json.loads(data)
+    except Exception:  # noqa: BLE001
+        return {"error": "no result from forked run (killed?)"}
+
+
+def child_neighbours(spec, meta):
+    """Child of engine N. This process has only imported the library; every run below happens in its own fork, so each
+    starts from the pristine interpreter state: 'alone' (only the scheduler under test ever exists) and 'after'
+    (near-identical neighbours first and in between)."""
+    targets = []
+    for j in range(spec.get("n_targets", N_TARGETS_PER_CASE)):
+        p = expand_n_target(spec, j)
+        nbs = neighbour_params(p, random.Random(p["vt_seed"] + 31))
+        alone = _in_fork(lambda: run_target(p, None))
+        after = _in_fork(lambda: run_target(p, nbs))
+        t = {"kind": p["kind"], "error": alone.get("error") or after.get("error")}
+        if t["error"]:
+            targets.append(t)
+            continue
+        t.update(alone=alone["calls"], n_suggest=alone["n_suggest"], events=alone["events"], labels=after["labels"],
+                 num_brackets=alone.get("num_brackets", 1), constructor_raised=alone.get("constructor_raised"),
+                 suggest_after=after["n_suggest"])
+        d = first_call_diff(alone["calls"], after["calls"])
+        if d is None and alone.get("constructor_raised") != after.get("constructor_raised"):
+            d = {"index": 0, "api": "constructor", "field": "one_run_raised", "solo": alone.get("constructor_raised"),
+                 "other": after.get("constructor_raised")}
+        if d is not None:
+            d["label"] = "several_only"
+            for label in sorted({lb for lb, _ in nbs}):
+                only = [nb for nb in nbs if nb[0] == label]
+                r = _in_fork(lambda: run_target(p, only))
+                if "error" not in r and first_call_diff(alone["calls"], r["calls"]) is not None:
+                    d["label"] = label
+                    break
+        t["diff"] = d
+        targets.append(t)
+    meta["targets"] = targets
+
+
 def child_main(argv):
     spec = json.loads(argv[0])
     import numpy as np
@@ -1386,7 +1652,7 @@ def child_main(argv):
     np.random.rand(pre % 13)
     for _ in range(pre % 7):
         random.random()
-    p = expand_b(spec)
+    p = expand_b(spec) if spec.get("engine") != "N" else {"scenario": "neighbours"}
     noise = GlobalNoise(pre * 7919 + 13)
     trace, meta = [], {"hashseed_env": os.environ.get("PYTHONHASHSEED"), "hash_probe": hash("c11-probe") & 0xFFFF}
     real_stdout = sys.stdout
@@ -1394,7 +1660,9 @@ def child_main(argv):
     try:
         sc = p["scenario"]
         try:
-            if sc == "vt_modelfree":
+            if sc == "neighbours":
+                child_neighbours(spec, meta)
+            elif sc == "vt_modelfree":
                 child_vt_modelfree(p, noise, trace, meta)
             elif sc.startswith("vt_"):
                 child_vt_gp(p, noise, trace, meta)
@@ -1532,6 +1800,11 @@ def run_engine_b(spec, o):
             o.count("domain_kind_in_child_spaces:" + dk)
     if any(dk in QUANTIZED_KINDS for d_ in descs for dk in space_kinds(d_)):
         o.count("B:cases_with_quantized_domain")
+    if sc == "vt_modelfree":
+        o.count("B:fresh_process_histories_with_random_seed_0",
+                sum(1 for j in range(pb["n_hist"]) if expand_a(modelfree_spec(pb, j))["sched_seed"] == 0))
+    elif pb["sched_seed"] == 0:
+        o.count("B:fresh_process_cases_with_random_seed_0:" + ("sim" if sc.startswith("sim_") else "vt_gp"))
     meta = ref[2]["meta"]
     o.count("B:gp_model_based_suggestions", meta.get("gp_model_based_suggestions", 0) if sc not in ("vt_modelfree",) else 0)
     if len({c[2]["meta"].get("hash_probe") for c in children}) > 1:
@@ -1695,6 +1968,10 @@ def run_engine_s(spec, o):
     n = r.get("events", 0)
     if r["fail"] is None and n >= 20:
         o.count("S:hist20:" + target)
+        if p["sched_seed"] == 0:
+            o.count("S:shared_twins_with_random_seed_0")
+        elif p["sched_seed"] in (1, 2, 3, 7, SEED_MAX, SEED_MAX - 1, 2 ** 32 - 1, 2 ** 32 - 2):
+            o.count("S:shared_twins_with_boundary_random_seed")
         if "restrict_configurations" in make_args(p)["so"]:
             o.count("S:hist20_sharing_restrict_configurations")
         if p.get("pts_variant") == "sampled":
@@ -1708,9 +1985,64 @@ def run_engine_s(spec, o):
 
 
 
+def run_engine_n(spec, o):
+    out = spawn_child(spec, "0", 1 + spec["seed"] % 1000)
+    o.count("N:children")
+    if "failed" in out or out.get("meta", {}).get("error") or any(t.get("error") for t in out["meta"].get("targets", [])):
+        o.inconclusive("child_failed")
+        o.sample = {"engine": "N", "child": {k: (v if k != "meta" else {kk: vv for kk, vv in v.items() if kk != "targets"})
+                                             for k, v in out.items() if k != "events"},
+                    "target_errors": [t.get("error") for t in out.get("meta", {}).get("targets", []) if t.get("error")][:2]}
+        o.set_sig(("N", "child_failed"), nontrivial=False)
+        return
+    sig, summary, ok = [], [], True
+    for j, t in enumerate(out["meta"]["targets"]):
+        p = expand_n_target(spec, j)
+        kind = p["kind"]
+        o.count("N:targets:" + kind)
+        params = {k: v for k, v in p.items() if k != "space"}
+        if t.get("constructor_raised"):
+            o.count("N:constructor_raised_in_solo_run")
+            continue
+        for lb, n_ in (t.get("labels") or {}).items():
+            o.count("neighbour_differs_in:" + lb, n_)
+        d = t.get("diff")
+        o.count("decided:neighbour_run_equals_solo_run_in_pristine_process")
+        if d is not None:
+            ok = False
+            o.violate("independent_of_other_scheduler_objects",
+                      f"N:{kind}:{d['api']}:{d['field']}:neighbour_differs_in={d['label']}",
+                      {"target_index": j, "diff": d, "params": params, "space": p["space"], "suggestions_before": sum(
+                          1 for c_ in t["alone"][: d["index"]] if c_.startswith('["suggest"'))})
+        # the same scheduler under test inside this long-lived worker process (which has created thousands of other
+        # schedulers before), again with its neighbours
+        nbs = neighbour_params(p, random.Random(p["vt_seed"] + 31))
+        r = run_target(p, nbs, o)
+        o.count("decided:neighbour_run_in_worker_equals_solo_run_in_pristine_process")
+        d2 = first_call_diff(t["alone"], r["calls"])
+        if d2 is not None and d is None:
+            ok = False
+            o.violate("independent_of_other_scheduler_objects",
+                      f"N:{kind}:{d2['api']}:{d2['field']}:neighbour_differs_in=history_of_the_worker_process",
+                      {"target_index": j, "diff": d2, "params": params, "space": p["space"]})
+        o.count("N:calls_compared", 2 * len(t["alone"]))
+        o.count("N:suggestions_compared", 2 * t["n_suggest"])
+        if kind.startswith("hb_") and t.get("num_brackets", 1) > 1 and t["n_suggest"] >= 100:
+            o.count("N:hyperband_multi_bracket_targets_with_100_suggestions")
+        if p["sched_seed"] == 0:
+            o.count("N:targets_with_random_seed_0")
+        sig.append((kind, hashlib.sha1("".join(t["alone"]).encode()).hexdigest()[:12]))
+        summary.append({"kind": kind, "calls": len(t["alone"]), "suggestions": t["n_suggest"], "neighbours": t.get("labels"),
+                        "num_brackets": t.get("num_brackets"), "sched_seed": p["sched_seed"]})
+    o.set_sig(("N", sig), nontrivial=ok and len(sig) >= 4)
+    o.sample = {"engine": "N", "targets": summary}
+
+
 def run_case(spec):
     o = Obs()
-    if spec.get("engine") == "S":
+    if spec.get("engine") == "N":
+        run_engine_n(spec, o)
+    elif spec.get("engine") == "S":
         run_engine_s(spec, o)
     elif spec.get("engine") == "B":
         run_engine_b(spec, o)
